@@ -226,6 +226,7 @@ You can provide input either as a file (as the first argument) or by piping logs
 					outWriter, err := os.Create(outPath)
 					if err != nil {
 						fmt.Fprintf(os.Stderr, "Error opening output file %s: %v\n", outPath, err)
+						_ = client.DeleteClusterLogs(cmd.Context(), files) // os.Exit skips the deferred cleanup
 						os.Exit(1)
 					}
 					defer outWriter.Close()
@@ -234,6 +235,7 @@ You can provide input either as a file (as the first argument) or by piping logs
 					totalLines, err := countLines(fileReader, file)
 					if err != nil {
 						fmt.Fprintf(os.Stderr, "Error counting lines in %s: %v\n", file, err)
+						_ = client.DeleteClusterLogs(cmd.Context(), files) // os.Exit skips the deferred cleanup
 						os.Exit(1)
 					}
 					bar = progressbar.NewOptions64(int64(totalLines),
@@ -262,6 +264,7 @@ You can provide input either as a file (as the first argument) or by piping logs
 					if err := ProcessMongoLogFile(fileReader, file, outWriter, bar); err != nil {
 						fmt.Fprintf(os.Stderr, "Error processing log file %s: %v\n", file, err)
 						outWriter.Close()
+						_ = client.DeleteClusterLogs(cmd.Context(), files) // os.Exit skips the deferred cleanup
 						os.Exit(1)
 					}
 					outWriter.Close()
